@@ -9,7 +9,7 @@ import ast
 
 from ..absval import Undecided, linform, truth_table, Lin
 from ..core import (AnalysisError, alpha, call_name, const, dotted, is_const, kwarg, local_defs,
-                    norm, origin, parent_map, walk_local, arg)
+                    norm, origin, parent_map, walk_local, arg, bound)
 from ..pattern import pmatch, pfind
 from ..facts import (param_default, default_of, guards_of, list_literal_strs, mentions, recv_calls,
                      returns_of, unpack_of, enclosing_loops)
@@ -479,11 +479,11 @@ def pipeline(rep):
                 rep.ob("O1.6", "PIPE", fi, firsts == {rp[side]}, f"{norm(v)} <- {sorted(firsts)}",
                        f"{'reactant' if side == 0 else 'product'} SMILES is written from parameter '{rp[side]}' on every path")
     # which hydrogens stay explicit: exactly the hydrogens of the reaction centre of the SAME ITS, the same list on both sides
-    keep = [c for c in walk_local(fi.node) if isinstance(c, ast.Call) and call_name(c) == "graph_to_smi" and kwarg(c, "preserve_atom_maps") is not None]
+    keep = [c for c in walk_local(fi.node) if isinstance(c, ast.Call) and call_name(c) == "graph_to_smi" and bound(fi, c, "preserve_atom_maps") is not None]
     rep.need("PIPE", len(keep), 2, "graph_to_smi(..., preserve_atom_maps=...) calls in graph_to_rsmi")
-    lists = {norm(kwarg(c, "preserve_atom_maps")) for c in keep}
+    lists = {norm(bound(fi, c, "preserve_atom_maps")) for c in keep}
     ok = len(lists) == 1
-    kp = kwarg(keep[0], "preserve_atom_maps")
+    kp = bound(fi, keep[0], "preserve_atom_maps")
     cands = [d_.value for d_ in defs.get(kp.id, []) if d_.kind == "assign" and not is_const(d_.value, None)] if isinstance(kp, ast.Name) else [kp]
     src = cands[0] if len(cands) == 1 else origin(defs, kp)   # `None` (everything stays explicit) may be the other binding
     m = pmatch("[$d['atom_map'] for $u, $d in $rc.nodes(data=True) if $d.get('element') == 'H']", src)
